@@ -60,6 +60,8 @@ func runC17(l *core.Ledger) {
 	c17U2(l, g)
 	c17B6(l, g)
 	c17GenFuncs(l, g)
+	l.Rule("C17-B11", "a service the documentation allows is generated: the generator stops only for the documented reasons (C16-Y12 re-run) - a new reason to reject (a custom return type declared in a sibling file, a nested message) means that a freshly written service that works with the committed generator gets no stubs")
+	l.With(map[string]string{"C16-Y12": "C17-B11"}, func() { c16Y12(l, g) })
 }
 
 // ---------------------------------------------------------------------------
